@@ -254,6 +254,9 @@ func cmdVC(args []string) {
 				if fc == nil && !*all {
 					continue
 				}
+				if fc != nil && fc.NoBody {
+					continue // assumed contract: the body is not verified
+				}
 				vc := w.NewVC(fn, fc)
 				if err := vc.Generate(); err != nil {
 					fmt.Printf("%s: %v\n", vc.name, err)
